@@ -20,8 +20,10 @@ def h_index_maps(ctx, d, q, batch):
     for k in range(d):
         ctx.assume(ctx.ge(I[k], 0))
         ctx.assume(ctx.lt(I[k], N))
-    arg = np.array([I, I]) if batch else I
+    arg = np.array([I, I]) if batch else I.copy()
+    arg0 = arg.copy()
     B = teneva.ind_tt_to_qtt(arg, N)
+    ctx.claim('index_argument_untouched', bool(ctx.all_eq(arg, arg0)) if is_sym(ctx) else bool(np.array_equal(arg, arg0)))
     b = B[0] if batch else B
     ctx.claim('shape', np.shape(B) == ((2, d * q) if batch else (d * q,)))
     ctx.claim('bits', ctx.all_([ctx.any_([ctx.eq(x, 0), ctx.eq(x, 1)]) for x in b]))
